@@ -22,9 +22,11 @@ import (
 	"google.golang.org/grpc/status"
 	"google.golang.org/protobuf/types/known/timestamppb"
 
+	"github.com/ozontech/seq-db/pkg/seqproxyapi/v1"
 	pb "github.com/ozontech/seq-db/pkg/storeapi"
 	"github.com/ozontech/seq-db/proxy/search"
 	"github.com/ozontech/seq-db/proxy/stores"
+	"github.com/ozontech/seq-db/proxyapi"
 	"github.com/ozontech/seq-db/seq"
 
 	"verifharness/internal/vh"
@@ -125,6 +127,40 @@ func runPFetch(line string) (res string) {
 	return fmt.Sprintf("ok %s %s/%d/%s", vh.B(resp.Done), fmtIDs(q.IDs), q.Total, fmtHist(q.Histogram))
 }
 
+// hfetch <desc> <offset> <size> <hi> <shards> : the proxy's gRPC handler over the real ingestor over scripted stores
+func runHFetch(line string) (res string) {
+	defer func() {
+		if r := recover(); r != nil {
+			res = "panic"
+		}
+	}()
+	f := strings.Fields(line)
+	ing, _ := buildAsyncProxy(splitShards(f[5]), f[1] == "1", atou(f[4]))
+	h := proxyapi.VerifNewGrpcV1C16(ing, time.Minute)
+	resp, err := h.FetchAsyncSearchResult(context.Background(), &seqproxyapi.FetchAsyncSearchResultRequest{SearchId: "x", Offset: int32(atoi(f[2])), Size: int32(atoi(f[3]))})
+	if err != nil {
+		if status.Code(err) == codes.NotFound {
+			return "err not-found"
+		}
+		return "err fail"
+	}
+	var ids []string
+	for _, d := range resp.Response.Docs {
+		id, err := seq.FromString(d.Id)
+		if err != nil {
+			return "err bad-id"
+		}
+		ids = append(ids, fmt.Sprintf("%d:%d", uint64(id.MID), uint64(id.RID)))
+	}
+	hist := map[seq.MID]uint64{}
+	if resp.Response.Hist != nil {
+		for _, bk := range resp.Response.Hist.Buckets {
+			hist[seq.MID(bk.Ts.AsTime().UnixMilli())] = bk.DocCount
+		}
+	}
+	return fmt.Sprintf("ok %s docs=%s hist=%s", vh.B(resp.Done), vh.JoinStrs(ids, ","), fmtHist(hist))
+}
+
 func runPStart(line string) (res string) {
 	defer func() {
 		if r := recover(); r != nil {
@@ -165,7 +201,7 @@ func runPStart(line string) (res string) {
 	return "ok " + strings.Join(parts, "|")
 }
 
-func genProxyAsync(g gen, chF, chS *vh.Channel, orc *vh.Oracle, rep *vh.Report, n int) {
+func genProxyAsync(g gen, chF, chS, chH *vh.Channel, orc *vh.Oracle, rep *vh.Report, n int) {
 	qtext := func(desc bool, hi uint64) (string, []string) {
 		q := g.qprText(desc, false, g.r.Intn(4), 20, map[bool]int{true: 2, false: 1}[hi > 0])
 		p := strings.Split(q, "/")
@@ -264,6 +300,24 @@ func genProxyAsync(g gen, chF, chS *vh.Channel, orc *vh.Oracle, rep *vh.Report, 
 				rep.Violate(vh.Violation{Site: "proxy/search/async.go:FetchAsyncSearchResult", Class: "shard-result-missing",
 					What: "ID " + missing + " of a shard's result is missing from " + got, Replay: []string{line}})
 			}
+		}
+		// (d) the public handler, with Size / Offset
+		{
+			var hs []string
+			for sIdx := 0; sIdx < nsh; sIdx++ {
+				q, _ := qtext(desc, hi)
+				if g.r.Chance(1, 8) {
+					hs = append(hs, "n+o1="+q)
+				} else {
+					hs = append(hs, fmt.Sprintf("o%s=%s", vh.B(g.r.Chance(3, 4)), q))
+				}
+			}
+			if g.r.Chance(1, 10) {
+				hs[0] = "u"
+			}
+			hline := fmt.Sprintf("hfetch %s %d %d %d %s", vh.B(desc), []int{0, 0, 1, 2}[g.r.Intn(4)], []int{0, 1, 3, 100}[g.r.Intn(4)], hi, strings.Join(hs, "|"))
+			gh := runHFetch(hline)
+			chH.Add(hline, gh, strings.Contains(gh, "docs=") && !strings.Contains(gh, "docs=-"), "answer="+strings.Fields(gh)[0])
 		}
 		// (c) start
 		var sb []string
